@@ -74,9 +74,9 @@ def call_variant(case, full, I0form='list', R0form='list', positional=False, rho
         args = [vals[k] for k in POSITIONAL[sim]]
         kw = {'return_full_data': full}
         if sim in simrun.WEIGHTED:
-            if case.get('ew'):
+            if case.get('ew') is not None:
                 kw['transmission_weight'] = case['ew']
-            if case.get('nw'):
+            if case.get('nw') is not None:
                 kw['recovery_weight'] = case['nw']
         return f(G, *args, **kw)
     kw = dict(tmin=vals['tmin'], tmax=vals['tmax'], return_full_data=full)
@@ -87,9 +87,9 @@ def call_variant(case, full, I0form='list', R0form='list', positional=False, rho
     if vals['initial_recovereds'] is not None and sim in simrun.HAS_R0:
         kw['initial_recovereds'] = vals['initial_recovereds']
     if sim in simrun.WEIGHTED:
-        if case.get('ew'):
+        if case.get('ew') is not None:
             kw['transmission_weight'] = case['ew']
-        if case.get('nw'):
+        if case.get('nw') is not None:
             kw['recovery_weight'] = case['nw']
         return f(G, case['tau'], case['gamma'], **kw)
     if sim in ('fast_nonMarkov_SIR', 'fast_nonMarkov_SIS'):
